@@ -48,7 +48,9 @@ def run_family(rep, tier, seed, replay, proof_ok, proof_msg, cfgs, thresholds, t
             exact_split = all(num.ftree.f32(b[3]) == b[3] for b in pb)
             la = num.case_lines("a", dict(inp, pts=pa), cfg[2], [runs_spec[0]])
             lb = num.case_lines("b", dict(inp, pts=pb), cfg[2], [runs_spec[0]])
-            text = "\n".join(lines + (la + lb if exact_split else [])) + "\n"
+            # homogeneity of 1/r: the same input in a box twice as large (dyadic scaling is exact in IEEE arithmetic)
+            ls_ = num.case_lines("s", dict(inp, center=[2 * c for c in inp["center"]], width=2 * inp["width"], pts=[[2 * v for v in p[:3]] + [p[3]] for p in inp["pts"]]), cfg[2], [runs_spec[0]])
+            text = "\n".join(lines + (la + lb if exact_split else []) + ls_) + "\n"
             rc, so, se = common.run_harness(path, text, timeout=1800)
             out.append((cfg, lines, rc, so, se, exact_split))
         return k, inp, ref, runs_spec, out
@@ -99,6 +101,19 @@ def run_family(rep, tier, seed, replay, proof_ok, proof_msg, cfgs, thresholds, t
                     if w > 2e4 * eps:
                         rep.violation("%s:linearity" % tag, "# potential(q) - potential(a) - potential(b) = %.3e of the accumulated magnitude, q = a + b exactly\n%s" % (w, text), True,
                                       "[%s %r] case %s: the potential is not linear in the charges (defect %.3e)" % (kernel_name, cfg, name, w))
+            if "s" in cases and runs and len(inp["pts"]) > 1:
+                rs = num.parse_runs(cases["s"], cfg[2])
+                if rs:
+                    w = 0.0
+                    for i in runs[0]:
+                        if ref[2][i] > 0:
+                            w = max(w, abs(runs[0][i][0] - 2 * rs[0][i][0]) / ref[2][i])
+                        if ref[3][i] > 0:
+                            w = max(w, max(abs(runs[0][i][1 + d] - 4 * rs[0][i][1 + d]) for d in range(3)) / ref[3][i])
+                    if not (w <= 2e4 * eps):
+                        rep.violation("%s:scaling" % tag, "# defect %.3e of the accumulated magnitude between the input and the same input scaled by 2\n%s" % (w, text), True,
+                                      "[%s %r] case %s: doubling the box (and all coordinates) does not halve the potentials / quarter the forces (defect %.3e, rounding would be < %.1e)" %
+                                      (kernel_name, cfg, name, w, 2e4 * eps))
             distinct.add((cfg, k))
             hist["%s%d/%s" % cfg] += 1
             hist["H=%d" % inp["H"]] += 1
@@ -107,14 +122,14 @@ def run_family(rep, tier, seed, replay, proof_ok, proof_msg, cfgs, thresholds, t
     # the error shrinks as the order grows (aggregated over this run's cases)
     by_order = sorted((c for c in worst if c[2] == "double"), key=lambda c: c[1])
     for a, b in zip(by_order, by_order[1:]):
-        if worst[a][0] > 0 and not (worst[b][0] < worst[a][0]):
+        if worst[a][0] > 1e3 * 2.0 ** -52 and not (worst[b][0] < worst[a][0]):
             rep.violation("%s:decay" % tag, "# worst potential error per order: %r\n" % ({str(c): worst[c] for c in by_order},), False,
                           "[%s] the worst error does not shrink from order %d (%.3e) to order %d (%.3e)" % (kernel_name, a[1], worst[a][0], b[1], worst[b][0]))
     if not proof_ok:
         rep.violation("proof-broken", "# " + proof_msg.replace("\n", "\n# ") + "\n", False, "proof stage failed: " + proof_msg.split("\n")[0])
     rep.cov["explanation"] = ("PARTIAL. Proved: the executor's argument conventions (C02), invariance of any additive kernel's result under grouping/executor/batching "
                               "(C08, C03 theorems), the pairwise law of the reference (C20). NOT provable here (truncation error of %s and IEEE rounding): tested — "
-                              "%d kernel executions on %d inputs compared with an independent direct sum; bounds per order calibrated on the pinned tree with about 10x head-room; "
+                              "%d kernel executions on %d inputs compared with an independent direct sum; bounds per order = 2x the supremum found by an adversarial search over single far-field pairs (tools/calibrate_num.py; the normalised error of any input is at most that supremum); "
                               "worst errors this run: %s" % (kernel_name, n_eval, n_cases, {"%s%d/%s" % c: ["%.2e" % x for x in v] for c, v in sorted(worst.items())}))
     rep.cov["evaluations"] = max(1, n_eval)
     rep.cov["distinct_nontrivial"] = max(2, len(distinct))
